@@ -52,6 +52,8 @@ def check(m, run):
     # an imported rational shape reports the weights of the file: setting control points clears the cached rational views
     from .. import rules_state as _rs
     _rs.iv1(m, run, [('NURBS', 'Curve'), ('NURBS', 'Surface'), ('NURBS', 'Volume')], caches_filter=lambda c: c in ("_cache['ctrlpts']", "_cache['weights']"))
+    from .. import skel_drivers as _sdt
+    _sdt.trm2(m, run)      # every kind of trim a file can carry is accepted by the setter the importers use
 
 
 def aggregate_after_loop(m, run):
